@@ -159,6 +159,31 @@ DROPPING = re.compile(r'^std::iter::Iterator::(last|nth|nth_back|count|skip|step
 UNCONDITIONAL = {'last', 'nth', 'nth_back', 'count', 'skip', 'step_by', 'max', 'min', 'max_by', 'min_by', 'max_by_key', 'min_by_key', 'advance_by', 'position', 'rposition', 'flatten'}
 
 
+FALLIBLE_ITER_SOURCES = re.compile(r'^builtin::sequence::XSequence::(iter|diter)$|^builtin::generators::XGenerator::(iter|_iter)$')
+
+
+def _fallible_source(b, t, depth=8):
+    """the receiver of an Iterator adaptor call comes -- through other adaptors -- from XSequence::iter / XGenerator::iter, whose
+    items are Result<Result<value, error>, RuntimeViolation> although the concrete iterator type (Either<Map<.., closure>>) does
+    not say so"""
+    cur = op_place(t['args'][0]) if t['args'] else None
+    for _ in range(depth):
+        if cur is None:
+            return False
+        k, v = mirq.chase(b, cur['l'])
+        if k != 'call':
+            return False
+        ct = v[1]
+        nm = strip_generics(ct.get('callee') or ct.get('decl') or '')
+        if FALLIBLE_ITER_SOURCES.match(nm):
+            return True
+        if strip_generics(ct.get('decl') or '').startswith('std::iter::Iterator::') or nm.endswith(('::into_iter', '::by_ref', '::unwrap', '::expect')):
+            cur = op_place(ct['args'][0]) if ct['args'] else None
+            continue
+        return False
+    return False
+
+
 def dropping_adaptors(ctx, r6):
     """Generator items are Result<Result<value, error>, RuntimeViolation>.  An Iterator adaptor that discards items by
     position or count (skip, nth, last, count, step_by, min/max ..) discards violations with them; an adaptor that decides
@@ -174,7 +199,7 @@ def dropping_adaptors(ctx, r6):
             if not m:
                 continue
             ty = (t.get('argtys') or [''])[0]
-            if 'runtime_violation::RuntimeViolation' not in ty:
+            if 'runtime_violation::RuntimeViolation' not in ty and not _fallible_source(b, t):
                 continue
             meth = m.group(1)
             n += 1
